@@ -162,6 +162,7 @@ class Runner:
         if ls:
             kw["listeners"] = ls
         SIM.constructing = tag
+        SIM.tl.constructing = tag
         ent.pop("sm", None)
         try:
             if op.get("mixin"):
@@ -176,6 +177,7 @@ class Runner:
                 sm = cls(model, **kw) if model is not None else cls(**kw)
         finally:
             SIM.constructing = None
+            SIM.tl.constructing = None
         if op.get("bind"):
             class _Target:
                 pass
@@ -453,6 +455,8 @@ class Runner:
         if self._absent(n, op):
             return
         SIM.epoch = n
+        if getattr(SIM.tl, "own_epoch", False):
+            SIM.tl.epoch = n
         SIM.rec(k="op+", n=n, op=op["op"], i=op.get("inst"))
         fn = getattr(self, "do_" + op["op"])
         r, e = self._outcome(fn, op)
